@@ -131,3 +131,74 @@ Proof.
   unfold c12_spec_named_positional. unfold c12_pos_spec in H. cbn [skipn] in H. rewrite Nat.sub_0_r in H. cbn [Nat.add] in H.
   destruct st; exact H.
 Qed.
+
+(* ------------------------------------------------------------------ readNamedOptions in full *)
+
+Lemma c12_skip_done_fu : forall l c, c12_skip_done l c = c + c12_first_unused l.
+Proof.
+  induction l as [|b l IH]; intros c; [cbn; lia|]. destruct b; cbn; [rewrite IH; lia|lia].
+Qed.
+
+(* the `current` cursor of the code is the first keyword without a value, as long as everything before it has one *)
+Lemma c12_cursor : forall done c, c <= length done -> forallb (fun b => b) (firstn c done) = true ->
+  c12_skip_done (skipn c done) c = c12_first_unused done.
+Proof.
+  induction done as [|b done IH]; intros c Hc Hall.
+  - cbn in Hc. assert (c = 0) by lia. subst. reflexivity.
+  - destruct c as [|c]; [apply c12_skip_done_fu|].
+    cbn in Hall. apply andb_true_iff in Hall as [Hb Hall]. subst b. cbn in Hc.
+    cbn [skipn c12_first_unused]. rewrite c12_skip_done_fu.
+    specialize (IH c ltac:(lia) Hall). rewrite c12_skip_done_fu in IH. lia.
+Qed.
+
+Lemma c12_fu_le : forall l, c12_first_unused l <= length l.
+Proof. induction l as [|[] l IH]; cbn; lia. Qed.
+
+Lemma c12_fu_prefix : forall l, forallb (fun b => b) (firstn (c12_first_unused l) l) = true.
+Proof. induction l as [|[] l IH]; cbn; [reflexivity|exact IH|reflexivity]. Qed.
+
+Lemma c12_mark_length : forall i l, length (c12_mark i l) = length l.
+Proof. intros i l. revert i. induction l as [|b l IH]; intros [|i]; cbn; try reflexivity. rewrite IH. reflexivity. Qed.
+
+Lemma c12_mark_prefix : forall n i l, forallb (fun b => b) (firstn n l) = true ->
+  forallb (fun b => b) (firstn n (c12_mark i l)) = true.
+Proof.
+  induction n as [|n IH]; intros i l H; [reflexivity|].
+  destruct l as [|b l]; [destruct i; reflexivity|]. cbn in H. apply andb_true_iff in H as [Hb H]. subst b.
+  destruct i as [|i]; cbn; [exact H|apply IH; exact H].
+Qed.
+
+Lemma c12_named_loop_spec : forall kw am ow args pt done current,
+  current <= length done -> forallb (fun b => b) (firstn current done) = true ->
+  c12_named_loop args pt kw done current am ow = c12_spec_named_loop args pt kw done am ow.
+Proof.
+  intros kw am ow. induction args as [|opt rest IH]; intros pt done current Hc Hall; [reflexivity|].
+  cbn [c12_named_loop c12_spec_named_loop]. unfold c12_arg_kind_of.
+  destruct (c12_eqs opt ["-"%char; "h"%char] || c12_eqs opt ["-"%char; "-"%char; "h"%char; "e"%char; "l"%char; "p"%char]); [reflexivity|].
+  destruct (c12_dashdash opt) as [body|].
+  - destruct (c12_split_at "=" body) as [[key value]|]; [|reflexivity].
+    destruct (c12_index_of key kw) as [i|].
+    + rewrite andb_false_r.
+      destruct (c12_named_store pt key value ow) as [pt' st]. destruct st; try reflexivity.
+      apply IH; [rewrite c12_mark_length; exact Hc|apply c12_mark_prefix; exact Hall].
+    + destruct am; cbn [negb andb]; [|reflexivity].
+      destruct (c12_named_store pt key value ow) as [pt' st]. destruct st; try reflexivity.
+      apply IH; assumption.
+  - rewrite (c12_cursor done current Hc Hall). cbv zeta.
+    destruct (Nat.leb (length done) (c12_first_unused done)); [reflexivity|].
+    destruct (c12_named_store pt (nth (c12_first_unused done) kw []) opt ow) as [pt' st]. destruct st; try reflexivity.
+    apply IH; [rewrite c12_mark_length; apply c12_fu_le|apply c12_mark_prefix; apply c12_fu_prefix].
+Qed.
+
+(* C12_options_positional, full statement: for ALL argument vectors, keyword lists, trees and flags
+   readNamedOptions is the documented mapping c12_spec_read_named (help, --name=value with the "value missing" /
+   "unknown" errors, positional arguments to the first keyword without a value, "superfluous", "already
+   specified", "missing") *)
+Lemma c12_read_named_spec : forall args pt kw required am ow,
+  c12_read_named_options args pt kw required am ow = c12_spec_read_named args pt kw required am ow.
+Proof.
+  intros. unfold c12_read_named_options, c12_spec_read_named.
+  rewrite (c12_named_loop_spec kw am ow args pt (repeat false (length kw)) 0 (Nat.le_0_l _) eq_refl).
+  destruct (c12_spec_named_loop args pt kw (repeat false (length kw)) am ow) as [[t st] d].
+  destruct st; reflexivity.
+Qed.
